@@ -23,6 +23,19 @@ CODE_LINES = ("stmt", "decl", "proto", "funchead", "ctrl", "lbrace", "rbrace", "
 BODY_LINES = ("stmt", "ctrl", "else", "lbrace", "rbrace", "decl", "cont")
 
 
+def odd_params(ln):
+    """a parameter that is a function pointer whose return type is itself a pointer ('int *(*f)(void)'): the argument rules
+    lose track of the remaining parameters there (open finding), so sites on such lines form their own class"""
+    return any("ptr-in-type" in y.tags and j + 1 < len(ln.lex) and ln.lex[j + 1].t == "(" for j, y in enumerate(ln.lex))
+
+
+def after_lone_identifier_paren(ln, k):
+    """is the operator at k (written ' op ') preceded by '(identifier)' ?"""
+    if k >= 2 and "paren-ident-close" in ln.lex[k - 2].tags:
+        return True
+    return k >= 4 and ln.lex[k - 2].t == ")" and ln.lex[k - 3].k in ("id", "type") and ln.lex[k - 4].t == "("
+
+
 def lead_tabs(ln):
     n = 0
     for x in ln.lex:
@@ -111,7 +124,7 @@ def _binop_positions(ln, tags=("binop", "asgop"), ambiguous=False):
     for k, x in enumerate(ln.lex):
         if x.k == "op" and any(t in x.tags for t in tags):
             if 0 < k < len(ln.lex) - 1 and ln.lex[k - 1].k == "sp" and ln.lex[k + 1].k == "sp":
-                if not ambiguous and x.t in ("+", "-", "*", "&") and k >= 2 and "paren-ident-close" in ln.lex[k - 2].tags:
+                if not ambiguous and x.t in ("+", "-", "*", "&") and after_lone_identifier_paren(ln, k):
                     continue
                 out.append(k)
     return out
@@ -491,12 +504,14 @@ def F02(p):
                         def ap(q, i=i, k=k):
                             del q.lines[i].lex[k - 1:k + 1]
                             return i
-                        yield ln.kind + ":kw-type", ap
+                        odd = any("ptr-in-type" in y.tags and j + 1 < len(ln.lex) and ln.lex[j + 1].t == "(" for j, y in enumerate(ln.lex))
+                        yield ln.kind + ":kw-type" + (":with-fptr-returning-pointer" if odd else ""), ap
                 elif "param-name" in x.tags and "ptr-param" in ln.lex[k - 1].tags and ln.lex[k + 1].t in (",", ")"):
                     def ap(q, i=i, k=k):
                         del q.lines[i].lex[k]
                         return i
-                    yield ln.kind + ":ptr", ap
+                    odd = any("ptr-in-type" in y.tags and j + 1 < len(ln.lex) and ln.lex[j + 1].t == "(" for j, y in enumerate(ln.lex))
+                    yield ln.kind + ":ptr" + (":with-fptr-returning-pointer" if odd else ""), ap
 
 
 @op("F03", "FORBIDDEN_CHAR_NAME", ("c",))
@@ -600,7 +615,7 @@ def F09(p):
                     def ap(q, i=i, k=k):
                         q.lines[i].lex[k - 1] = Lx("\t", "tab")
                         return i
-                    yield ln.kind + ":kw-type", ap
+                    yield ln.kind + ":kw-type" + (":with-fptr-returning-pointer" if odd_params(ln) else ""), ap
                     break
                 if "param-name" in x.tags and ln.lex[k - 1].k == "sp" and ln.lex[k - 2].k == "type":
                     def ap(q, i=i, k=k):
@@ -892,7 +907,7 @@ def S13(p):
 # operators, keywords, parentheses
 
 
-@op("O01", ("SPC_BFR_OPERATOR", "SPC_AFTER_PAR"))   # after a closing parenthesis the rule words it from the parenthesis' side
+@op("O01", ("SPC_BFR_OPERATOR", "SPC_AFTER_PAR", "MAXIMAL_MUNCH"))   # MAXIMAL_MUNCH: '0x4e' glued to a sign is one pp-number   # after a closing parenthesis the rule words it from the parenthesis' side
 def O01(p):
     for i, ln in enumerate(p.lines):
         if ln.kind in ("stmt", "ctrl", "cont", "decl", "global"):
@@ -901,7 +916,10 @@ def O01(p):
                     def ap(q, i=i, k=k):
                         del q.lines[i].lex[k - 1]
                         return i
-                    yield cls_of(p, i) + ":" + ("asg" if "asgop" in ln.lex[k].tags else "bin"), ap
+                    if ln.lex[k].t in ("+", "-", "*", "&") and ln.lex[k - 2].t == ")":
+                        yield "bin:sign-after-parenthesised-expr", ap
+                    else:
+                        yield cls_of(p, i) + ":" + ("asg" if "asgop" in ln.lex[k].tags else "bin"), ap
 
 
 @op("O02a", ("SPC_AFTER_OPERATOR", "SPC_BFR_OPERATOR"))
@@ -920,8 +938,10 @@ def O02a(p):
                 def ap(q, i=i, k=k):
                     del q.lines[i].lex[k + 1]
                     return i
-                yield ("asg" if "asgop" in ln.lex[k].tags else "bin") + (":unary-next" if nxt.k == "un" else ":plain") + \
-                    ("" if nxt.k == "un" else "@" + ln.kind), ap
+                pm_after_paren = ln.lex[k].t in ("+", "-", "*", "&") and ln.lex[k - 2].t == ")"
+                yield ("asg" if "asgop" in ln.lex[k].tags else "bin") + (":unary-next" if nxt.k == "un" else ":before-NULL" if nxt.t == "NULL" else
+                                                                       ":sign-after-parenthesised-expr" if pm_after_paren else ":plain") + \
+                    ("" if nxt.k == "un" or nxt.t == "NULL" or pm_after_paren else "@" + ln.kind), ap
 
 
 @op("O02b", ("SPC_BFR_PAR", "SPC_AFTER_OPERATOR"))
@@ -1059,7 +1079,8 @@ def O09(p):
                     def ap(q, i=i, k=k):
                         q.lines[i].lex.insert(k + 1, SP())
                         return i
-                    yield "after-unary" if k > 0 and ln.lex[k - 1].k == "un" else "after-cast" if k > 0 and "cast-close" in ln.lex[k - 1].tags else "plain", ap
+                    yield "after-unary" if k > 0 and ln.lex[k - 1].k == "un" else "after-cast" if k > 0 and "cast-close" in ln.lex[k - 1].tags \
+                        else "first-on-continuation-line" if ln.kind == "cont" and k > 0 and ln.lex[k - 1].k == "tab" else "plain", ap
 
 
 @op("O10", "EOL_OPERATOR", ("c",))
